@@ -10,6 +10,12 @@
 //!   node := `A.<ty>.<field>.<eq|ne|lt|le|gt|ge>.<rhs>` | `&(<node>,<node>)` | `+(<node>,<node>)` | `!(<node>)`
 //!   rhs  := `i<int>` | `b<0|1>` | `s<k>` | `v<ty>_<field>`          action := `-` | `<field>=<val>;…[;R]` | `R`
 //!   op   := `I<ty>:<data>` | `U<h>:<data>` | `X<h>` | `F` | `Z`      data := `-` | `<field>=<val>,…`
+//!         | `E<ty>:<data>` insert_explicit | `T<ty>:<data>` insert_with_template | `S<k>` set_conflict_resolution_strategy(k-th)
+//!         | `D` load_deffacts | `N<k>` load_deffacts_by_name("d<k>") | `W` reset_with_deffacts      (see `new_engine`)
+//!   more of the node grammar: operators `ct` contains, `sw` startsWith, `ew` endsWith, `in`; rhs `w<letters a..c>` (the string
+//!   <letters>) and `[v|v|…]` (array literal); no-loop flag `1v` / `0v`: the rule's alpha nodes are built with
+//!   `AlphaNode::with_typed_value`.  New results: `t0` (template Err), `s<k>` (strategy read back), `d<1|0><handles>` (deffacts
+//!   loaded: Ok / Err and the new handles); every token ends in `/<rules>.<total>.<active>.<retracted>.<types>.<deps>` = stats().
 //! obs   := `D<0|1> tok tok …`; tok := `<res>/<get>/<T0>/<T1>/<T2>/<all_facts>/<all_handles>/<contents>`
 //!   res  := `i<h>` | `u<0|1>` | `x<0|1>` | `z` | `F<fired names>~<rule>@<handle>@<f=v,…>~…`
 //!   D1 = at every moment at most one live fact per type (then nothing depends on HashMap iteration order).
@@ -26,6 +32,9 @@ use rust_rule_engine::rete::facts::{FactValue, TypedFacts};
 use rust_rule_engine::rete::network::{ReteUlNode, TypedReteUlRule};
 use rust_rule_engine::rete::propagation::IncrementalEngine;
 use rust_rule_engine::rete::working_memory::FactHandle;
+use rust_rule_engine::rete::agenda::ConflictResolutionStrategy;
+use rust_rule_engine::rete::deffacts::DeffactsBuilder;
+use rust_rule_engine::rete::template::{FieldDef, FieldType, Template};
 use rust_rule_engine::rete::{ActionResult, AlphaNode, GrlReteLoader};
 use std::sync::{Arc, Mutex};
 
@@ -39,6 +48,8 @@ fn parse_val(s: &str) -> Option<FactValue> {
         // h<2x>: the float x, an exact half-integer (no rounding on either side of the wire)
         b'h' => s[1..].parse::<i64>().ok().map(|t| FactValue::Float(t as f64 / 2.0)),
         b'n' if s == "n" => Some(FactValue::Null),
+        // w<letters a..c>: the string <letters> (substring structure for contains / startsWith / endsWith)
+        b'w' if s.len() > 1 && s[1..].bytes().all(|c| (b'a'..=b'c').contains(&c)) => Some(FactValue::String(s[1..].to_string())),
         _ => None,
     }
 }
@@ -46,7 +57,8 @@ fn show_val(v: &FactValue) -> String {
     match v {
         FactValue::Integer(i) => format!("i{}", i),
         FactValue::Boolean(b) => format!("b{}", if *b { 1 } else { 0 }),
-        FactValue::String(s) => s.clone(),
+        FactValue::String(s) if s.starts_with('s') => s.clone(),
+        FactValue::String(s) => format!("w{}", s),
         FactValue::Float(f) if (f * 2.0).fract() == 0.0 && f.abs() < 1e15 => format!("h{}", (f * 2.0) as i64),
         FactValue::Null => "n".into(),
         _ => "?".into(),
@@ -54,19 +66,38 @@ fn show_val(v: &FactValue) -> String {
 }
 
 /// recursive-descent parser for the node grammar; returns the node and the rest of the input
-fn parse_node(s: &str) -> Option<(ReteUlNode, &str)> {
+fn op_text(code: &str) -> Option<&'static str> {
+    Some(match code { "eq" => "==", "ne" => "!=", "lt" => "<", "le" => "<=", "gt" => ">", "ge" => ">=",
+        "ct" => "contains", "sw" => "startsWith", "ew" => "endsWith", "in" => "in", _ => return None })
+}
+/// the text of one literal as `GrlReteLoader::value_to_string` / the alpha node carries it (floats keep their fraction here:
+/// "15.0" is parsed back as Float; the loader and `with_typed_value` print "15")
+fn alpha_val(v: &str) -> Option<String> {
+    Some(match v.as_bytes().first()? {
+        b'i' => v[1..].parse::<i64>().ok()?.to_string(),
+        b'b' => (if &v[1..] == "1" { "true" } else { "false" }).to_string(),
+        b's' => v.to_string(),
+        b'w' => match parse_val(v)? { FactValue::String(t) => t, _ => return None },
+        b'h' => format!("{:?}", v[1..].parse::<i64>().ok()? as f64 / 2.0),
+        b'n' if v == "n" => "null".to_string(),
+        _ => return None,
+    })
+}
+/// `typed` = build the alpha nodes with the public constructor `AlphaNode::with_typed_value` (literal right-hand sides only;
+/// an array literal always goes in as text: `with_typed_value` prints an array in `Debug` form, which no loader produces)
+fn parse_node(s: &str, typed: bool) -> Option<(ReteUlNode, &str)> {
     if let Some(r) = s.strip_prefix("&(") {
-        let (l, r) = parse_node(r)?;
-        let (rr, r) = parse_node(r.strip_prefix(',')?)?;
+        let (l, r) = parse_node(r, typed)?;
+        let (rr, r) = parse_node(r.strip_prefix(',')?, typed)?;
         return Some((ReteUlNode::UlAnd(Box::new(l), Box::new(rr)), r.strip_prefix(')')?));
     }
     if let Some(r) = s.strip_prefix("+(") {
-        let (l, r) = parse_node(r)?;
-        let (rr, r) = parse_node(r.strip_prefix(',')?)?;
+        let (l, r) = parse_node(r, typed)?;
+        let (rr, r) = parse_node(r.strip_prefix(',')?, typed)?;
         return Some((ReteUlNode::UlOr(Box::new(l), Box::new(rr)), r.strip_prefix(')')?));
     }
     if let Some(r) = s.strip_prefix("!(") {
-        let (n, r) = parse_node(r)?;
+        let (n, r) = parse_node(r, typed)?;
         return Some((ReteUlNode::UlNot(Box::new(n)), r.strip_prefix(')')?));
     }
     let end = s.find([',', ')']).unwrap_or(s.len());
@@ -74,17 +105,22 @@ fn parse_node(s: &str) -> Option<(ReteUlNode, &str)> {
     if p.len() != 5 || p[0] != "A" {
         return None;
     }
-    let op = match p[3] { "eq" => "==", "ne" => "!=", "lt" => "<", "le" => "<=", "gt" => ">", "ge" => ">=", _ => return None };
+    let op = op_text(p[3])?;
+    let field = format!("T{}.f{}", p[1], p[2]);
+    if typed && !p[4].starts_with('v') && !p[4].starts_with('[') {
+        return Some((ReteUlNode::UlAlpha(AlphaNode::with_typed_value(field, op.into(), parse_val(p[4])?)), &s[end..]));
+    }
     let value = match p[4].as_bytes().first()? {
-        b'i' => p[4][1..].parse::<i64>().ok()?.to_string(),
-        b'b' => (if &p[4][1..] == "1" { "true" } else { "false" }).to_string(),
-        b's' => p[4].to_string(),
-        b'h' => format!("{:?}", p[4][1..].parse::<i64>().ok()? as f64 / 2.0), // "15.0", "0.5": parsed back as Float
-        b'n' if p[4] == "n" => "null".to_string(),
         b'v' => { let (t, f) = p[4][1..].split_once('_')?; format!("T{}.f{}", t, f) }
-        _ => return None,
+        // [v|v|…]: array literal, as `value_to_string(Value::Array)` renders it
+        b'[' => {
+            let inner = p[4].strip_prefix('[')?.strip_suffix(']')?;
+            let items = if inner.is_empty() { Vec::new() } else { inner.split('|').map(alpha_val).collect::<Option<Vec<_>>>()? };
+            format!("[{}]", items.join(","))
+        }
+        _ => alpha_val(p[4])?,
     };
-    Some((ReteUlNode::UlAlpha(AlphaNode { field: format!("T{}.f{}", p[1], p[2]), operator: op.into(), value }), &s[end..]))
+    Some((ReteUlNode::UlAlpha(AlphaNode { field, operator: op.into(), value }), &s[end..]))
 }
 
 struct RuleSpec { ty: u64, prio: i32, no_loop: bool, node: ReteUlNode, sets: Vec<(String, FactValue)>, retract: bool }
@@ -93,7 +129,7 @@ fn parse_rule(s: &str) -> Option<RuleSpec> {
     let p: Vec<&str> = s.splitn(4, ':').collect();
     if p.len() != 4 { return None; }
     let (node_s, act_s) = p[3].rsplit_once(':')?;
-    let (node, rest) = parse_node(node_s)?;
+    let (node, rest) = parse_node(node_s, p[2].ends_with('v'))?;
     if !rest.is_empty() { return None; }
     let ty: u64 = p[0].parse().ok()?;
     let mut sets = Vec::new();
@@ -105,7 +141,7 @@ fn parse_rule(s: &str) -> Option<RuleSpec> {
             sets.push((format!("T{}.f{}", ty, f), parse_val(v)?));
         }
     }
-    Some(RuleSpec { ty, prio: p[1].parse().ok()?, no_loop: p[2] == "1", node, sets, retract })
+    Some(RuleSpec { ty, prio: p[1].parse().ok()?, no_loop: p[2].starts_with('1'), node, sets, retract })
 }
 
 fn parse_data(s: &str) -> Option<TypedFacts> {
@@ -125,8 +161,10 @@ fn show_data(items: &mut Vec<(u64, String)>) -> String {
 }
 fn fnum(k: &str) -> u64 { k.trim_start_matches('f').parse().unwrap_or(999) }
 
-fn views(e: &IncrementalEngine, max_h: u64, d1: &mut bool) -> String {
+fn views(e: &IncrementalEngine, max_h: &mut u64, d1: &mut bool) -> String {
     let wm = e.working_memory();
+    for h in wm.get_all_handles() { *max_h = (*max_h).max(h.id()); }
+    let max_h = *max_h;
     let get: Vec<u64> = (1..=max_h + 1).filter(|h| wm.get(&FactHandle::new(*h)).map(|f| f.handle.id() == *h).unwrap_or(false)).collect();
     let mut parts = vec![join_nums(&get)];
     for t in 0..NTYPES {
@@ -147,6 +185,10 @@ fn views(e: &IncrementalEngine, max_h: u64, d1: &mut bool) -> String {
     }).collect();
     facts.sort();
     parts.push(if facts.is_empty() { "-".into() } else { facts.into_iter().map(|(_, s)| s).collect::<Vec<_>>().join("+") });
+    // the counting twins: IncrementalEngine::stats() (wraps WorkingMemory::stats())
+    let st = e.stats();
+    parts.push(format!("{}.{}.{}.{}.{}.{}", st.rules, st.working_memory.total_facts, st.working_memory.active_facts,
+        st.working_memory.retracted_facts, st.working_memory.types, st.dependencies));
     parts.join("/")
 }
 
@@ -156,6 +198,7 @@ fn grl_val(v: &str) -> Option<String> {
         b'i' => v[1..].parse::<i64>().ok()?.to_string(),
         b'b' => (if &v[1..] == "1" { "true" } else { "false" }).to_string(),
         b's' => format!("\"{}\"", v),
+        b'w' => format!("\"{}\"", alpha_val(v)?),
         b'h' => format!("{:?}", v[1..].parse::<i64>().ok()? as f64 / 2.0),
         b'n' if v == "n" => "null".to_string(),
         _ => return None,
@@ -177,8 +220,13 @@ fn grl_node(s: &str) -> Option<(String, &str)> {
     let end = s.find([',', ')']).unwrap_or(s.len());
     let p: Vec<&str> = s[..end].split('.').collect();
     if p.len() != 5 || p[0] != "A" { return None; }
-    let op = match p[3] { "eq" => "==", "ne" => "!=", "lt" => "<", "le" => "<=", "gt" => ">", "ge" => ">=", _ => return None };
-    let rhs = if let Some(v) = p[4].strip_prefix('v') { let (t, f) = v.split_once('_')?; format!("T{}.f{}", t, f) } else { grl_val(p[4])? };
+    let op = op_text(p[3])?;
+    let rhs = if let Some(v) = p[4].strip_prefix('v') { let (t, f) = v.split_once('_')?; format!("T{}.f{}", t, f) }
+        else if let Some(inner) = p[4].strip_prefix('[') {
+            let inner = inner.strip_suffix(']')?;
+            let items = if inner.is_empty() { Vec::new() } else { inner.split('|').map(grl_val).collect::<Option<Vec<_>>>()? };
+            format!("[{}]", items.join(", "))
+        } else { grl_val(p[4])? };
     Some((format!("T{}.f{} {} {}", p[1], p[2], op, rhs), &s[end..]))
 }
 /// `rule "R<i>" salience <p> [no-loop] { when <node> then <T.f = literal;>* [retract(T);] }` (`Log("x");` for an empty action list)
@@ -198,7 +246,7 @@ fn grl_rule(i: usize, s: &str) -> Option<String> {
     }
     if acts.is_empty() { acts.push("Log(\"x\");".to_string()); }
     Some(format!("rule \"R{}\" salience {}{} {{\n    when\n        {}\n    then\n        {}\n}}\n", i, p[1].parse::<i32>().ok()?,
-        if p[2] == "1" { " no-loop" } else { "" }, cond, acts.join("\n        ")))
+        if p[2].starts_with('1') { " no-loop" } else { "" }, cond, acts.join("\n        ")))
 }
 
 // ------------------------------------------------------------------------------------------------ execution
@@ -214,6 +262,43 @@ fn run_ops(e: &mut IncrementalEngine, ops: &[&str], log: Option<&Arc<Mutex<Vec<S
                 let h = e.insert(format!("T{}", ty), parse_data(data)?).id();
                 max_h = max_h.max(h);
                 format!("i{}", h)
+            }
+            // the twin entry points
+            b'E' => {
+                let (ty, data) = op[1..].split_once(':')?;
+                let h = e.insert_explicit(format!("T{}", ty), parse_data(data)?).id();
+                max_h = max_h.max(h);
+                format!("i{}", h)
+            }
+            b'T' => {
+                let (ty, data) = op[1..].split_once(':')?;
+                match e.insert_with_template(&format!("T{}", ty), parse_data(data)?) {
+                    Ok(h) => { max_h = max_h.max(h.id()); format!("i{}", h.id()) }
+                    Err(_) => "t0".to_string(),
+                }
+            }
+            b'S' => {
+                let k: usize = op[1..].parse().ok()?;
+                e.set_conflict_resolution_strategy(*STRATEGIES.get(k)?);
+                let now = e.conflict_resolution_strategy();
+                format!("s{}", STRATEGIES.iter().position(|s| *s == now).unwrap_or(99))
+            }
+            b'D' | b'W' | b'N' => {
+                let before: Vec<u64> = e.working_memory().get_all_handles().iter().map(|h| h.id()).collect();
+                let (ok, mut hs): (bool, Vec<u64>) = match op.as_bytes()[0] {
+                    b'D' => (true, e.load_deffacts().iter().map(|h| h.id()).collect()),
+                    b'W' => (true, e.reset_with_deffacts().iter().map(|h| h.id()).collect()),
+                    _ => {
+                        let k: u64 = op[1..].parse().ok()?;
+                        match e.load_deffacts_by_name(&format!("d{}", k)) {
+                            Ok(v) => (true, v.iter().map(|h| h.id()).collect()),
+                            // Err: the handles that are new in working memory all the same
+                            Err(_) => (false, e.working_memory().get_all_handles().iter().map(|h| h.id()).filter(|h| !before.contains(h)).collect()),
+                        }
+                    }
+                };
+                if !ok { hs.sort(); }
+                format!("d{}{}", if ok { 1 } else { 0 }, join_nums(&hs))
             }
             b'U' => {
                 let (h, data) = op[1..].split_once(':')?;
@@ -231,10 +316,32 @@ fn run_ops(e: &mut IncrementalEngine, ops: &[&str], log: Option<&Arc<Mutex<Vec<S
             b'Z' => { e.reset(); "z".into() }
             _ => return None,
         };
-        let v = views(e, max_h, &mut d1);
+        let v = views(e, &mut max_h, &mut d1);
         toks.push(format!("{}/{}", res, v));
     }
     Some((toks, d1))
+}
+
+const STRATEGIES: [ConflictResolutionStrategy; 8] = [ConflictResolutionStrategy::Salience, ConflictResolutionStrategy::LEX,
+    ConflictResolutionStrategy::MEA, ConflictResolutionStrategy::Depth, ConflictResolutionStrategy::Breadth,
+    ConflictResolutionStrategy::Simplicity, ConflictResolutionStrategy::Complexity, ConflictResolutionStrategy::Random];
+
+/// every engine of every case: template `T1` (f0 Integer required, f1 String optional) and the deffacts set `d0`
+/// (T0 {f0 = 25}; T1 {f0 = 1, f1 = "s1"}; T1 {f0 = "s0"} — violates the template; T2 {f1 = true}) — lean/RreModel/C06/Ext.lean
+fn new_engine() -> IncrementalEngine {
+    let mut e = IncrementalEngine::new();
+    let mut t = Template::new("T1");
+    t.add_field(FieldDef { name: "f0".into(), field_type: FieldType::Integer, default_value: None, required: true });
+    t.add_field(FieldDef { name: "f1".into(), field_type: FieldType::String, default_value: None, required: false });
+    e.templates_mut().register(t);
+    let d = DeffactsBuilder::new("d0")
+        .add_fact("T0", parse_data("0=i25").unwrap())
+        .add_fact("T1", parse_data("0=i1,1=s1").unwrap())
+        .add_fact("T1", parse_data("0=s0").unwrap())
+        .add_fact("T2", parse_data("1=b1").unwrap())
+        .build();
+    e.deffacts_mut().register(d).unwrap();
+    e
 }
 
 fn exec(case: &str) -> String {
@@ -243,7 +350,7 @@ fn exec(case: &str) -> String {
     let Some(rules) = t[0].split('/').map(parse_rule).collect::<Option<Vec<_>>>() else { return "bad-case".into() };
     let Some(grl) = t[0].split('/').enumerate().map(|(i, r)| grl_rule(i, r)).collect::<Option<Vec<_>>>() else { return "bad-case".into() };
     let log: Arc<Mutex<Vec<String>>> = Arc::new(Mutex::new(Vec::new()));
-    let mut e = IncrementalEngine::new();
+    let mut e = new_engine();
     for (i, r) in rules.into_iter().enumerate() {
         let (lg, ty, sets, retract) = (log.clone(), r.ty, r.sets, r.retract);
         let tname = format!("T{}", ty);
@@ -278,8 +385,17 @@ fn exec(case: &str) -> String {
     }
     let Some((toks, d1)) = run_ops(&mut e, &t[1..], Some(&log)) else { return "bad-case".into() };
     // the loader path: the same rules as GRL text through the real GrlReteLoader into a second engine, same calls
-    let mut e2 = IncrementalEngine::new();
-    let g = match GrlReteLoader::load_from_string(&grl.join("\n"), &mut e2) {
+    let mut e2 = new_engine();
+    // every other case (by its length) goes through the file twin of the loader entry point
+    let text = grl.join("\n");
+    let loaded = if case.len() % 2 == 0 { GrlReteLoader::load_from_string(&text, &mut e2) } else {
+        let path = std::env::temp_dir().join(format!("rre_c06_{}.grl", std::process::id()));
+        match std::fs::write(&path, &text) {
+            Ok(()) => { let r = GrlReteLoader::load_from_file(&path, &mut e2); let _ = std::fs::remove_file(&path); r }
+            Err(_) => GrlReteLoader::load_from_string(&text, &mut e2),
+        }
+    };
+    let g = match loaded {
         Err(err) => format!("G!{}", hex(&format!("{}", err))),
         Ok(n) if n != grl.len() => format!("G!{}", hex(&format!("loaded {} of {} rules", n, grl.len()))),
         Ok(_) => {
@@ -426,7 +542,8 @@ fn gen_case_with(rng: &mut Rng, neg: bool, negcmp: bool) -> String {
         let mut node = gen_node(rng, ty, 2, allow_not, ntypes);
         if neg && (i == 0 || rng.chance(1, 2)) { node = format!("!({})", gen_node(rng, ty, 1, allow_not, ntypes)); }
         if negcmp { node = gen_negcmp_node(rng, ty); }
-        rules.push(format!("{}:{}:{}:{}:{}", ty, prios[i], nl, node, action));
+        // one rule in eight is built with the public constructor AlphaNode::with_typed_value (flag `v`)
+        rules.push(format!("{}:{}:{}{}:{}:{}", ty, prios[i], nl, if rng.chance(1, 8) { "v" } else { "" }, node, action));
     }
     let nops = rng.range(2, 12) as usize;
     let mut ops = Vec::new();
@@ -628,7 +745,8 @@ fn gen_typealike_case(rng: &mut Rng) -> String {
             1 => format!("{}=i{}", other, rng.below(3)),
             _ => "-".to_string(),
         };
-        rules.push(format!("{}:{}:{}:{}:{}", ty, prios[1 + i], if rng.chance(7, 8) { 1 } else { 0 }, rnode, raction));
+        // one reader in three is built with AlphaNode::with_typed_value: its Float n.0 literal is carried as "n" = Integer n
+        rules.push(format!("{}:{}:{}{}:{}:{}", ty, prios[1 + i], if rng.chance(7, 8) { 1 } else { 0 }, if rng.chance(1, 3) { "v" } else { "" }, rnode, raction));
     }
     let mut ops = Vec::new();
     let data = |rng: &mut Rng, v: &str| {
@@ -654,8 +772,240 @@ fn gen_typealike_case(rng: &mut Rng) -> String {
     format!("{} {}", rules.join("/"), ops.join(" "))
 }
 
+/// family "every public way a fact enters" (reach audit): the rule sets of the general family; histories in which `insert` is
+/// interleaved with its twins — `E` insert_explicit, `T` insert_with_template (type T1 has a template: f0 Integer required, f1
+/// String optional; valid facts, facts that violate it, types without template: an `Err` must leave working memory, the handle
+/// counter and the agenda untouched), `D` load_deffacts, `N0` / `N5` load_deffacts_by_name (the registered set stops with `Err` at
+/// its invalid fact, the facts before it stay; an unknown name), `W` reset_with_deffacts (a new working memory: numbering restarts,
+/// pending activations and fired flags are gone) — and with `S<k>` set_conflict_resolution_strategy (re-sorts the pending
+/// activations: none may be lost or duplicated), then update / retract / fire_all / reset as usual.  State survives across calls.
+fn gen_entry_case(rng: &mut Rng) -> String {
+    let base = gen_case_with(rng, false, false);
+    let mut rules = base.split(' ').next().unwrap().to_string();
+    // one case in three: quiet no-loop rules that the registered deffacts (and most generated facts) satisfy
+    let deff_rules = rng.chance(1, 3);
+    if deff_rules {
+        let mut prios: Vec<i64> = vec![-5, 0, 1, 7, 20];
+        rng.shuffle(&mut prios);
+        let pool = ["0:{}:1:A.0.0.gt.i18:-", "1:{}:1:A.1.1.eq.s1:-", "2:{}:1:A.2.1.eq.b1:-", "1:{}:1:!(A.1.0.gt.i3):-", "0:{}:1:+(A.0.0.ge.i25,A.0.1.eq.n):-",
+            "2:{}:1:!(A.2.0.lt.i0):-"];
+        let mut idx: Vec<usize> = (0..pool.len()).collect();
+        rng.shuffle(&mut idx);
+        rules = (0..rng.range(2, 4) as usize).map(|i| pool[idx[i]].replace("{}", &prios[i].to_string())).collect::<Vec<_>>().join("/");
+    }
+    let rule_types: Vec<u64> = rules.split('/').map(|r| r.split(':').next().unwrap().parse().unwrap()).collect();
+    let single = rng.chance(1, 3);
+    let mut next = 1u64;
+    let mut live: Vec<(u64, u64)> = Vec::new();
+    let mut ops: Vec<String> = Vec::new();
+    let t1_data = |rng: &mut Rng, valid: bool| -> String {
+        if valid {
+            let mut d = format!("0=i{}", *rng.pick(&[0i64, 1, 3, 15, 18, 25, -4]));
+            if rng.chance(1, 3) { d.push_str(&format!(",1=s{}", rng.below(2))); }
+            if rng.chance(1, 4) { d.push_str(&format!(",2={}", gen_val(rng))); }
+            d
+        } else {
+            match rng.below(5) {
+                0 => "-".to_string(),                                          // required field missing
+                1 => format!("1=s{}", rng.below(2)),
+                2 => format!("0={}", *rng.pick(&["s0", "h30", "b1", "n", "h3"])), // wrong type (Float 15.0 is not an Integer)
+                3 => format!("0=i{},1={}", rng.below(20), *rng.pick(&["i1", "b0", "n", "h2"])), // optional field of the wrong type
+                _ => format!("0=n,1=s{}", rng.below(2)),
+            }
+        }
+    };
+    let nops = rng.range(3, 12) as usize;
+    for opi in 0..nops {
+        let k = if opi == 0 { rng.below(4) } else { rng.below(16) };
+        let free: Vec<u64> = (0..NTYPES).filter(|t| !live.iter().any(|(_, lt)| lt == t)).collect();
+        match k {
+            0..=3 if next <= 8 && !(single && free.is_empty()) => {
+                let ty = if single { *rng.pick(&free) } else if rng.chance(2, 3) { *rng.pick(&rule_types) } else { rng.below(NTYPES) };
+                match rng.below(4) {
+                    0 => { ops.push(format!("I{}:{}", ty, gen_data(rng))); live.push((next, ty)); next += 1; }
+                    1 => { ops.push(format!("E{}:{}", ty, gen_data(rng))); live.push((next, ty)); next += 1; }
+                    _ => {
+                        // insert_with_template: on T1 mostly (the templated type), valid 2 in 3
+                        let tty = if single { ty } else if rng.chance(4, 5) { 1 } else { ty };
+                        if tty == 1 {
+                            let valid = rng.chance(2, 3);
+                            ops.push(format!("T1:{}", t1_data(rng, valid)));
+                            if valid { live.push((next, 1)); next += 1; }
+                        } else {
+                            ops.push(format!("T{}:{}", tty, gen_data(rng)));         // no template of that name: Err
+                        }
+                    }
+                }
+            }
+            4 | 5 if !live.is_empty() => {
+                let (h, ty) = *rng.pick(&live);
+                ops.push(format!("U{}:{}", h, if ty == 1 && rng.chance(1, 2) { t1_data(rng, true) } else { gen_data(rng) }));
+            }
+            6 if next > 1 => {
+                let h = if rng.chance(1, 6) || live.is_empty() { rng.range(1, next) } else { rng.pick(&live).0 };
+                live.retain(|(lh, _)| *lh != h);
+                ops.push(format!("X{}", h));
+            }
+            7 | 8 => ops.push(format!("S{}", rng.below(8))),
+            9 if !single && next <= 6 => {
+                if rng.chance(1, 2) { ops.push("D".into()); live.extend([(next, 0), (next + 1, 1), (next + 2, 2)]); next += 3; }
+                else if rng.chance(3, 4) { ops.push("N0".into()); live.extend([(next, 0), (next + 1, 1)]); next += 2; }
+                else { ops.push("N5".into()); }
+            }
+            10 if rng.chance(1, 2) => { ops.push("W".into()); live = vec![(1, 0), (2, 1), (3, 2)]; next = 4; }
+            11 => ops.push("Z".into()),
+            _ => {
+                // the strategy setter with activations pending, right before they are fired
+                if rng.chance(1, 3) { ops.push(format!("S{}", rng.below(8))); }
+                ops.push("F".into());
+            }
+        }
+    }
+    if rng.chance(2, 3) { if rng.chance(1, 3) { ops.push(format!("S{}", rng.below(8))); } ops.push("F".into()); }
+    // rules fired, then the engine is re-initialised: pending activations and fired flags of the old working memory must be gone
+    if deff_rules && rng.chance(1, 2) || rng.chance(1, 8) {
+        if rng.chance(1, 2) { ops.push(format!("U{}:{}", rng.range(1, next.max(2) - 1), gen_data(rng))); }
+        ops.push("W".into());
+        if rng.chance(1, 4) { ops.push(format!("S{}", rng.below(8))); }
+        ops.push("F".into());
+    }
+    format!("{} {}", rules, ops.join(" "))
+}
+
+/// family "string operators and `in`" (typed core: contains / startsWith / endsWith / in): one to three rules whose conditions use
+/// them — against word literals over {a, b, c} (`wab` = "ab": prefixes, suffixes and infixes of the stored words, and words that are
+/// none of them), against another field, against non-strings (false), `in` against array literals of mixed element types (an
+/// integral float element comes back from GRL text as an integer), alone, negated, or next to a comparison; the facts hold words,
+/// numbers, booleans, null, or lack the field.  Mostly quiet rule sets (both exactness clauses apply); every rule also goes through
+/// GRL text and the real loader; one rule in four is built with `AlphaNode::with_typed_value`.
+fn gen_strop_case(rng: &mut Rng) -> String {
+    const WORDS: [&str; 10] = ["wa", "wb", "wc", "wab", "wbc", "wca", "wabc", "wcab", "wbb", "wabcab"];
+    let ntypes = if rng.chance(2, 3) { 1 } else { 2 };
+    // one case in four: `in` over numbers only — Integer n and Float n.0 print alike and are different members
+    let numeric = rng.chance(1, 4);
+    let sval = |rng: &mut Rng| -> String {
+        if numeric { return rng.pick(&["i1", "i2", "h2", "h4", "i2", "h4", "h3", "n"]).to_string(); }
+        // numbers that print alike in their two representations (Integer 2 / Float 2.0), for `in` and `==`
+        match rng.below(12) {
+            0 => "n".to_string(),
+            1 | 2 => format!("i{}", *rng.pick(&[1i64, 2, 2, 15])),
+            3 => format!("s{}", rng.below(2)),
+            4 | 5 => format!("{}", *rng.pick(&["b1", "h4", "h4", "h2", "h3"])),
+            _ => rng.pick(&WORDS).to_string(),
+        }
+    };
+    let leaf = |rng: &mut Rng, ty: u64| -> String {
+        let f = rng.below(2);
+        match if numeric { 9 } else { rng.below(10) } {
+            0..=4 => format!("A.{}.{}.{}.{}", ty, f, *rng.pick(&["ct", "sw", "ew"]), *rng.pick(&WORDS)),
+            5 => format!("A.{}.{}.{}.{}", ty, f, *rng.pick(&["ct", "sw", "ew", "in"]), *rng.pick(&["i1", "n", "b1", "s0", "s1", "h3"])),
+            6 => format!("A.{}.{}.{}.v{}_{}", ty, f, *rng.pick(&["ct", "sw", "ew", "in", "eq"]), ty, 1 - f),
+            7 => format!("A.{}.{}.{}.{}", ty, f, *rng.pick(&["eq", "ne", "le", "gt"]), sval(rng)),
+            _ => {
+                let n = if numeric { rng.range(1, 2) } else { rng.below(5) } as usize;
+                let items: Vec<String> = (0..n).map(|_| sval(rng)).collect();
+                format!("A.{}.{}.{}.[{}]", ty, f, if rng.chance(5, 6) { "in" } else { *rng.pick(&["eq", "ne", "le", "ct"]) }, items.join("|"))
+            }
+        }
+    };
+    let mut prios: Vec<i64> = vec![-5, 0, 1, 7, 20];
+    rng.shuffle(&mut prios);
+    let quiet = rng.chance(3, 4);
+    let nrules = rng.range(1, 3) as usize;
+    let mut rules = Vec::new();
+    for i in 0..nrules {
+        let ty = rng.below(ntypes);
+        let node = match rng.below(8) {
+            0 => format!("!({})", leaf(rng, ty)),
+            1 => format!("&({},{})", leaf(rng, ty), leaf(rng, ty)),
+            2 => format!("+({},!({}))", leaf(rng, ty), leaf(rng, ty)),
+            _ => leaf(rng, ty),
+        };
+        let action = if quiet { "-".to_string() } else {
+            match rng.below(4) { 0 => "R".to_string(), 1 => format!("{}={}", rng.below(2), sval(rng)), _ => "-".to_string() }
+        };
+        rules.push(format!("{}:{}:{}{}:{}:{}", ty, prios[i], if quiet || rng.chance(7, 8) { 1 } else { 0 },
+            if rng.chance(1, 4) { "v" } else { "" }, node, action));
+    }
+    let data = |rng: &mut Rng| -> String {
+        let mut items = Vec::new();
+        for f in 0..2 { if rng.chance(4, 5) { items.push(format!("{}={}", f, sval(rng))); } }
+        if items.is_empty() { "-".into() } else { items.join(",") }
+    };
+    let mut ops = Vec::new();
+    let single = rng.chance(2, 3);
+    let nfacts = if single { ntypes } else { rng.range(1, 4) };
+    for i in 0..nfacts { ops.push(format!("{}{}:{}", if rng.chance(1, 5) { "E" } else { "I" }, if single { i } else { rng.below(ntypes) }, data(rng))); }
+    ops.push("F".into());
+    for _ in 0..rng.below(4) {
+        if rng.chance(2, 3) { ops.push("Z".into()); }
+        for h in 1..=nfacts { if rng.chance(2, 3) { ops.push(format!("U{}:{}", h, data(rng))); } }
+        if rng.chance(1, 8) { ops.push(format!("X{}", rng.range(1, nfacts))); }
+        ops.push("F".into());
+    }
+    format!("{} {}", rules.join("/"), ops.join(" "))
+}
+
+/// family "the strategy setter between fire_all calls" (seeded change C06-10: a `set_strategy` that rebuilds the agenda through
+/// `clear()` forgets which no-loop rules have fired).  Quiet no-loop rules that the facts satisfy; facts; fire_all; then one to
+/// three rounds of: `S<k>` (a strategy different from the current one, or the same again, or two setters in a row), a touch that
+/// re-creates activations of rules that already fired (update with satisfying contents / another insert through any of the entry
+/// points), sometimes a retract, and fire_all — WITHOUT reset: no rule may fire a second time (`no_loop_twice`), with a reset in
+/// between every satisfied rule fires again (exactness).  Also the setter while activations are pending (none lost, none doubled).
+fn gen_strategy_case(rng: &mut Rng) -> String {
+    let mut prios: Vec<i64> = vec![-5, 0, 1, 7, 20, 3];
+    rng.shuffle(&mut prios);
+    let pool = ["0:{}:1:A.0.0.gt.i18:-", "1:{}:1:A.1.1.eq.s1:-", "2:{}:1:A.2.1.eq.b1:-", "1:{}:1:!(A.1.0.gt.i3):-", "0:{}:1:+(A.0.0.ge.i25,A.0.1.eq.n):-",
+        "2:{}:1:!(A.2.0.lt.i0):-", "0:{}:1:A.0.0.ne.i3:-"];
+    let mut idx: Vec<usize> = (0..pool.len()).collect();
+    rng.shuffle(&mut idx);
+    let rules: Vec<String> = (0..rng.range(1, 4) as usize).map(|i| pool[idx[i]].replace("{}", &prios[i].to_string())).collect();
+    let good = ["0=i25", "0=i1,1=s1", "1=b1"];                 // contents that satisfy the pool rules of T0 / T1 / T2
+    let mut ops: Vec<String> = Vec::new();
+    let mut types: Vec<u64> = Vec::new();                      // type of handle h = types[h - 1]
+    if rng.chance(1, 2) { ops.push("D".into()); types.extend([0, 1, 2]); } else {
+        for ty in 0..NTYPES { if rng.chance(4, 5) {
+            ops.push(format!("{}{}:{}", *rng.pick(&["I", "E", "I"]), ty, good[ty as usize])); types.push(ty);
+        } }
+        if types.is_empty() { ops.push("I0:0=i25".into()); types.push(0); }
+    }
+    let mut cur = 0u64;
+    if rng.chance(1, 3) { cur = rng.below(8); ops.push(format!("S{}", cur)); }   // setter with activations pending
+    ops.push("F".into());
+    for _ in 0..rng.range(1, 3) {
+        let reset = rng.chance(1, 3);
+        // the reset before the setter, after it, or after the touch (seeded change C06-8: touch, reset, fire_all)
+        let mut zdone = !reset;
+        if !zdone && rng.chance(1, 3) { ops.push("Z".into()); zdone = true; }
+        for _ in 0..rng.range(if reset { 0 } else { 1 }, 2) {
+            let k = if rng.chance(1, 5) { cur } else { (cur + rng.range(1, 7)) % 8 };
+            ops.push(format!("S{}", k));
+            cur = k;
+        }
+        if !zdone && rng.chance(1, 2) { ops.push("Z".into()); zdone = true; }
+        for _ in 0..rng.range(1, 2) {
+            if rng.chance(3, 4) {
+                let h = rng.range(1, types.len() as u64);
+                ops.push(format!("U{}:{}{}", h, good[types[h as usize - 1] as usize], if rng.chance(1, 3) { ",2=i1" } else { "" }));
+            } else {
+                let ty = rng.below(NTYPES);
+                ops.push(format!("{}{}:{}", if ty == 1 { *rng.pick(&["I", "E", "T"]) } else { *rng.pick(&["I", "E"]) }, ty, good[ty as usize]));
+                types.push(ty);
+            }
+        }
+        if rng.chance(1, 8) { ops.push(format!("X{}", rng.range(1, types.len() as u64))); }
+        if !zdone { ops.push("Z".into()); }
+        if rng.chance(1, 4) { ops.push(format!("S{}", cur)); }                    // the same strategy again: returns early or not
+        ops.push("F".into());
+    }
+    format!("{} {}", rules.join("/"), ops.join(" "))
+}
+
 fn gen(rng: &mut Rng, n: usize, _tier: &str) -> Vec<String> {
     (0..n).map(|i| match i % 50 {
+        1 | 11 | 21 | 31 | 41 | 6 | 26 | 46 => gen_entry_case(rng),
+        4 | 24 | 44 | 14 => gen_strategy_case(rng),
+        2 | 12 | 22 | 32 | 42 | 16 | 36 => gen_strop_case(rng),
         9 | 19 | 29 | 39 => gen_typealike_case(rng),
         27 | 47 => gen_repropagate_case(rng),
         7 => gen_stale_case(rng),
